@@ -7,9 +7,17 @@
    (formal) integral over the trapezoid between the edge and the y-axis
    int_0^1 X(t)^(a+1)/(a+1) Y(t)^b Y'(t) dt -- sign, divisor, exponent shift and node count
    are specified there, not copied from the quadrature.  The bound 14 is the 19-node table of
-   the sweep nc_sweep (the code uses a+b+5 nodes).  Curved boundaries: area exact /
-   "quadrature accuracy" for higher moments -- oracle only (partial). *)
-From SV Require Import Spec.Spec Lemmas.Quadrature.
+   the sweep nc_sweep (the code uses a+b+5 nodes).
+   Curved boundaries (Lemmas/QuadCurved.v): the coordinates of a Bezier segment are the
+   polynomials seg_px_poly / seg_py_poly in t (every degree), and the model's rule on 3+ex+ey+d
+   nodes integrates X^ex Y^ey Y' EXACTLY whenever (d-1)(ex+ey) <= 3 (C04_curved_segment): the
+   area for every degree <= 5 (C04_curved_area; the statement's "area is exact" for degrees
+   1..3), the moments of order 1 and 2 for quadratic boundaries, every moment for straight ones;
+   the curved specification coincides with the polygon one on polygons.  Outside that range the
+   rule is NOT exact: machine-checked witnesses for a cubic (first and second moments) and for
+   the area of a sextic -- there the statement only promises "quadrature accuracy", which stays
+   with the oracle (partial). *)
+From SV Require Import Spec.Spec Lemmas.Quadrature Lemmas.QuadCurved.
 Open Scope Q_scope.
 
 Theorem C04_polygon : forall S a b, shape_lines S = true -> (a + b <= 14)%nat ->
@@ -38,6 +46,56 @@ Theorem C04_reverse : forall A B ex ey, (ex + ey + 4 <= 19)%nat ->
   vertical [B; A] ex ey == - vertical [A; B] ex ey.
 Proof. exact vertical_rev. Qed.
 Print Assumptions C04_reverse.
+
+(* ---- curved boundaries ---- *)
+(* the polynomials of the specification are the curve the code evaluates, for every segment *)
+Theorem C04_segment_polynomials : forall s t,
+  px (eval s t) == peval (seg_px_poly s) t /\ py (eval s t) == peval (seg_py_poly s) t.
+Proof. intros s t; split; [apply eval_px_poly | apply eval_py_poly]. Qed.
+Print Assumptions C04_segment_polynomials.
+
+(* one segment of degree d: the rule on 3+ex+ey+d nodes is exact when (d-1)(ex+ey) <= 3 *)
+Theorem C04_curved_segment : forall s ex ey,
+  (1 <= degree s)%nat -> ((degree s - 1) * (ex + ey) <= 3)%nat -> (3 + ex + ey + degree s <= 19)%nat ->
+  vertical s ex ey == pint01 (curved_integrand s ex ey).
+Proof. exact vertical_curved_exact'. Qed.
+Print Assumptions C04_curved_segment.
+
+(* the area of a closed curve with segments of degree <= 5 is exact *)
+Theorem C04_curved_area : forall j, (forall s, In s j -> (1 <= degree s <= 5)%nat) ->
+  jordan_area j == Qsum (map (fun s => pint01 (curved_integrand s 1 0)) j).
+Proof. exact area_curved_exact5. Qed.
+Print Assumptions C04_curved_area.
+
+(* moments of shapes of every kind, per segment (d-1)(a+1+b) <= 3: order <= 2 for quadratics *)
+Theorem C04_curved_moments : forall Sh a b,
+  (forall j s, In j (jordans Sh) -> In s j ->
+     (1 <= degree s)%nat /\ ((degree s - 1) * (S a + b) <= 3)%nat) ->
+  (a + b <= 11)%nat -> moment Sh a b == moment_spec_curved Sh a b.
+Proof. exact moment_curved_spec. Qed.
+Print Assumptions C04_curved_moments.
+
+Theorem C04_curved_spec_on_polygons : forall Sh a b, shape_lines Sh = true ->
+  moment_spec_curved Sh a b == moment_spec Sh a b.
+Proof. exact moment_spec_curved_lines. Qed.
+
+(* the bound is sharp: beyond it the rule is a quadrature, not an identity *)
+Example C04_cubic_first_moment_inexact :
+  exists s, degree s = 3%nat /\ ~ vertical s 2 0 == pint01 (curved_integrand s 2 0).
+Proof. destruct cubic_first_moment_inexact as (s & H1 & _ & H3). exists s. split; assumption. Qed.
+Example C04_sextic_area_inexact :
+  exists s, degree s = 6%nat /\ ~ vertical s 1 0 == pint01 (curved_integrand s 1 0).
+Proof. exact sextic_area_inexact. Qed.
+
+(* the cap under y = 1 - x^2: area 4/3, int x^2 = 4/15, inside the hypotheses *)
+Example C04_curved_nonvacuous :
+  (forall s, In s cap -> (1 <= degree s <= 4)%nat) /\
+  jordan_area cap = 4 # 3 /\
+  moment cap_shape 2 0 = 4 # 15 /\
+  Qred (moment_spec_curved cap_shape 2 0) = 4 # 15.
+Proof.
+  split; [exact (proj1 cap_hyps)|]. split; [exact (proj1 cap_area)|exact cap_moment_20].
+Qed.
 
 Example C04_nonvacuous :
   shape_lines Lshape = true /\ moment Lshape 2 1 = 149 # 48 /\ Qred (moment_spec Lshape 2 1) = 149 # 48.
